@@ -34,7 +34,7 @@ def gen(args):
     from harness import selectors as H
     rng = np.random.default_rng([sd, wid, 202])
     out = []
-    for t in range(n):
+    for t in core.timed(range(n)):
         kind = H.KINDS[int(rng.integers(len(H.KINDS)))]
         n_s, m_s = int(rng.integers(3, 13)), int(rng.integers(2, 5))
         X = H.lattice(rng, n_s, m_s, int(rng.integers(1, 7)), kind)
@@ -53,7 +53,7 @@ def gen(args):
                 init = [int(i) for i in rng.choice(N, size=k0, replace=False)]
                 kw = {"initialize": list(init) if rng.random() < 0.5 else np.array(init)}
             elif r < 0.55:
-                rs = int(rng.integers(0, 1000))
+                rs = int(rng.integers(0, 1000)) if rng.random() < 0.7 else 0      # 0 is the documented default (then omitted half of the time)
                 kw = {"initialize": "random", "random_state": rs}
                 init = [int(np.random.RandomState(rs).randint(N))]     # the documented draw (environment input)
             else:
@@ -73,7 +73,7 @@ def gen(args):
             N = N_s
             a = int(rng.integers(0, 8))
             if rng.random() < 0.3:
-                rs = int(rng.integers(0, 1000))
+                rs = int(rng.integers(0, 1000)) if rng.random() < 0.7 else 0      # 0 is the documented default (then omitted half of the time)
                 kw = {"initialize": "random", "random_state": rs, "mixing": a / 8}
                 init = [int(np.random.RandomState(rs).randint(N))]
             else:
@@ -99,7 +99,7 @@ def gen_fx(args):
     from harness.pcovr import fq
     rng = np.random.default_rng([sd, wid, 203])
     out = []
-    for t in range(n):
+    for t in core.timed(range(n)):
         ns, ni = int(rng.integers(5, 9)), int(rng.integers(3, 7))
         Xi = rng.integers(-6, 7, size=(ns, ni))
         if rng.random() < 0.25 and ni >= 3:
